@@ -26,6 +26,11 @@ type StageInput struct {
 	Tail  int    `json:"tail"`  // sink=limit: if > 0 the limit is this many 512-byte blocks before the end of the complete output
 	Files int    `json:"files"` // package files in the build root
 	Size  int    `json:"size"`  // size of each
+	// the -o path of the run under test exists beforehand (sinks none, limit, badcomp): random bytes,
+	// length = size of the complete output * PriorPermille / 1000 + PriorExtra
+	HasPrior      bool `json:"hasprior,omitempty"`
+	PriorPermille int  `json:"priorpermille,omitempty"`
+	PriorExtra    int  `json:"priorextra,omitempty"`
 }
 
 const stageTmp = "/var/tmp/lcv/c10s"
@@ -154,19 +159,47 @@ func runStageCase(in StageInput) (*common.Case, error) {
 	default:
 		return nil, fmt.Errorf("unknown sink %s", in.Sink)
 	}
+	outPath := stageTmp + "/out"
+	toFile := in.Sink == "none" || in.Sink == "limit" || in.Sink == "badcomp"
+	priorTerm, priorLen := q.None(), -1
+	if toFile && in.HasPrior {
+		priorLen = stagePrior(outPath, in, size)
+		priorTerm = q.Some(q.N(uint64(priorLen)))
+	}
 	exitOK, stderr2, err := runStage(shell, env)
 	if err != nil {
 		return nil, err
 	}
-	term := q.App("C10.CStage", q.App("C10.MkS", q.N(uint64(in.Mode)), sinkTerm, q.N(uint64(size)), q.Bool(exitOK)))
+	// the length of compressed output is no function of the input: device nodes and directories
+	// that stagemaker synthesises carry the clock of the run, so the reference run and the run under
+	// test may compress different bytes (seen: xz 3344 vs 3360).  The file-length observation is
+	// made for the text lists and the uncompressed archive; compressed files are read back in full
+	// by the C07 check (harness/c07/r5_outfile.go)
+	lenTerm, outLen := q.None(), int64(-1)
+	if toFile && in.Mode <= 4 {
+		if st, e := os.Stat(outPath); e == nil && st.Mode().IsRegular() {
+			outLen = st.Size()
+			lenTerm = q.Some(q.N(uint64(outLen)))
+		}
+	}
+	term := q.App("C10.CStage", q.App("C10.MkS", q.N(uint64(in.Mode)), sinkTerm, q.N(uint64(size)), priorTerm, q.Bool(exitOK), lenTerm))
 	raw, _ := json.Marshal(in)
 	var any interface{}
 	json.Unmarshal(raw, &any)
 	reached := in.Sink == "full" || in.Sink == "fullout" || in.Sink == "closed" || in.Sink == "badcomp" || (in.Sink == "limit" && int64(in.Limit) < size)
+	classes := []string{"stagemaker", fmt.Sprintf("mode=%d", in.Mode), "sink=" + in.Sink}
+	if priorLen >= 0 {
+		classes = append(classes, "stagemaker-output-path-existed")
+		if int64(priorLen) > size && exitOK {
+			classes = append(classes, "stagemaker-output-path-held-longer-file")
+			reached = true
+		}
+	}
 	return &common.Case{Coq: term, Key: "stage:" + string(raw), Nontrivial: reached,
-		Classes: []string{"stagemaker", fmt.Sprintf("mode=%d", in.Mode), "sink=" + in.Sink},
+		Classes: classes,
 		Desc: map[string]interface{}{"input": map[string]interface{}{"stage": any},
-			"obs": map[string]interface{}{"size": size, "exit_ok": exitOK, "stderr": stderr2, "cmd": shell}}}, nil
+			"obs": map[string]interface{}{"size": size, "exit_ok": exitOK, "stderr": stderr2, "cmd": shell,
+				"prior_len": priorLen, "output_file_len": outLen}}}, nil
 }
 
 func genStageInput(r *rng.R) StageInput {
@@ -192,5 +225,6 @@ func genStageInput(r *rng.R) StageInput {
 	if in.Mode == 4 && r.Chance(1, 2) { // an archive of more than one 64 KiB buffer
 		in.Files, in.Size = 6+r.Intn(6), 20000+r.Intn(30000)
 	}
+	genStagePrior(r, &in)
 	return in
 }
